@@ -20,6 +20,9 @@ I_C13rt == Is("rt") => /\ Last.outcome \in {"equal", "noencode"}
 \* an unrecognised element: skipped when non-critical (or when the caller ignores criticality), rejected otherwise
 I_C13ins == Is("ins") => Last.outcome = Expected(Last.u, Last.ic)
 I_C13models == Is("Reset") => Last.models >= 1 /\ Last.files >= 1
+\* the checked-in generated file of a package is byte for byte what the checked-in generator makes of the checked-in definitions
+I_C13gen == Is("gen") => Last.equal /\ Last.generated > 0
 Failed == (IF I_C13rt THEN {} ELSE {"I_C13rt"}) \cup (IF I_C13ins THEN {} ELSE {"I_C13ins"}) \cup (IF I_C13models THEN {} ELSE {"I_C13models"})
+          \cup (IF I_C13gen THEN {} ELSE {"I_C13gen"})
 CollectViol == Failed = {} \/ PrintT(<<"viol", hi, Failed>>)
 ====
